@@ -120,6 +120,8 @@ class Dataset(AbstractDataset, dict, OpMixin, GetSetDelAttrMixin):
             raise TypeError("new dims must be iterable")
         if not len(newdims) == len(self.axes):
             raise ValueError("dimension mistmatch")
+        if len(set(newdims)) != len(newdims):
+            raise ValueError("dimension names must be distinct, got: {}".format(list(newdims)))
 
         # update every element's dimension
         for i, newname in enumerate(newdims):
@@ -514,6 +516,8 @@ class Dataset(AbstractDataset, dict, OpMixin, GetSetDelAttrMixin):
         a: ('x0',)
         b: ('x0', 'x1')
         """
+        if name is not None and name in self.dims and name != self.axes[axis].name:
+            raise ValueError("dimension already present: {}".format(name))
         if not inplace: self = self.copy()
         self.axes[axis].set(values=values, inplace=True, name=name, **kwargs)
         if not inplace: return self
@@ -597,6 +601,11 @@ class Dataset(AbstractDataset, dict, OpMixin, GetSetDelAttrMixin):
             if not callable(mapper):
                 raise TypeError("mapper must be callable")
             iterkeys = [(old, mapper(old)) for old in ds.dims]
+
+        iterkeys = list(iterkeys)
+        names = [dict(iterkeys).get(d, d) for d in ds.dims]
+        if len(set(names)) != len(names):
+            raise ValueError("dimension names must be distinct, got: {}".format(names))
 
         for old, new in iterkeys:
             ds.axes[old].name = new
